@@ -90,8 +90,8 @@ MUTANTS = [
       "dist.isf(1 - points[..., i - 1])", 'C15'),
     M('uniform-scale-is-upper-bound', PR, "dist = uniform(loc=dist[0], scale=dist[1] - dist[0])",
       "dist = uniform(loc=dist[0], scale=dist[1])", 'C15'),
-    M('fixed-value-added-to-ones', PR, "np.ones(phys_points[..., 0].shape) * dist",
-      "np.ones(phys_points[..., 0].shape) + dist", 'C15'),
+    M('fixed-value-added-to-ones', PR, "np.ones(phys_points.shape[:-1]) * dist",
+      "np.ones(phys_points.shape[:-1]) + dist", 'C15'),
     M('resume-reads-blobs-where-absent', S, "                    if 'blobs_{}'.format(shell) in group:",
       "                    if 'blobs_{}'.format(shell) not in group:", 'C05 C03'),
     M('resume-reads-transfer-set-where-absent', S,
@@ -640,8 +640,8 @@ MUTANTS = [
       "        for dist in reversed(self.dists):\n            if hasattr(dist, 'isf'):\n"
       "                phys_points", 'C15'),
     M('fixed-consumes-coordinate', PR,
-      "                param_dict[key] = np.ones(phys_points[..., 0].shape) * dist\n",
-      "                param_dict[key] = np.ones(phys_points[..., 0].shape) * dist\n"
+      "                param_dict[key] = np.ones(phys_points.shape[:-1]) * dist\n",
+      "                param_dict[key] = np.ones(phys_points.shape[:-1]) * dist\n"
       "                i = i + 1\n", 'C15'),
     M('dists-not-appended-for-link', PR,
       "        self.keys.append(key)\n        self.dists.append(dist)\n",
